@@ -193,10 +193,11 @@ func inHead(stream []byte, p int) bool {
 func run(c *mc.Ctx) {
 	ex := c.Counter("executions")
 	tr := c.Counter("transitions")
-	twoCutBound := 160
+	twoCutBound, threeCutBound := 160, 0
 	if c.Thorough() {
-		twoCutBound = 400
+		twoCutBound, threeCutBound = 600, 110
 	}
+	c.Extra("three_cut_length_bound", threeCutBound)
 	c.Extra("two_cut_length_bound", twoCutBound)
 	items := serverCorpus(c.Thorough())
 	for _, it := range clih.ResponseCorpus(c.Thorough()) {
@@ -262,7 +263,9 @@ func run(c *mc.Ctx) {
 			atomic.AddInt64(tr, int64(len(cuts)+1))
 			if got != ref {
 				kind := "1cut"
-				if len(cuts) == 2 {
+				if len(cuts) == 3 {
+					kind = "3cut"
+				} else if len(cuts) == 2 {
 					kind = "2cut"
 				} else if len(cuts) == 1 && cuts[0] == -1 {
 					kind = "bytewise"
@@ -284,6 +287,11 @@ func run(c *mc.Ctx) {
 				try([]int{u.first, q})
 				if inHead(it.stream, u.first) {
 					atomic.AddInt64(&nt, 1)
+				}
+				if len(it.stream) <= threeCutBound {
+					for r := q + 1; r < len(it.stream); r++ {
+						try([]int{u.first, q, r})
+					}
 				}
 			}
 		}
